@@ -30,6 +30,10 @@ func (l *URIHdrsLst) Reset() {
 	for i := 0; i < l.HNo(); i++ {
 		l.Hdrs[i].Reset()
 	}
+	if l.N < len(l.Hdrs) {
+		// header in progress (suspended or failed parse)
+		l.Hdrs[l.N].Reset()
+	}
 	t := l.Hdrs
 	*l = URIHdrsLst{}
 	l.Hdrs = t
